@@ -44,7 +44,8 @@ def cli_flags(kw):
         name = {'svgclass': '--svgclass', 'lineclass': '--lineclass', 'svgid': '--svgid', 'xmldecl': None, 'svgns': None, 'nl': None,
                 'omitsize': '--no-size', 'unit': '--unit', 'svgversion': '--svgversion', 'title': '--title', 'desc': '--desc',
                 'draw_transparent': '--draw-transparent', 'dpi': '--dpi', 'scale': '--scale', 'border': '--border', 'dark': '--dark',
-                'light': '--light', 'plain': None, 'compresslevel': None, 'name': None, 'url': None}.get(k, '--' + k.replace('_', '-'))
+                'light': '--light', 'plain': None, 'compresslevel': None, 'name': None, 'url': None,
+                'encoding': '--svgencoding'}.get(k, '--' + k.replace('_', '-'))      # (--encoding is the encoding of the CONTENT)
         if k == 'xmldecl' and v is False:
             flags.append('--no-xmldecl')
         elif k == 'svgns' and v is False:
@@ -71,7 +72,8 @@ def run(ctx):
     if ctx.thorough:
         symbols += [dict(content='A' * 200, error='H', micro=False), dict(content='7', version='M1', micro=True)]
     option_sets = {
-        'svg': [{}, {'scale': 3, 'border': 1}, {'dark': 'darkblue', 'light': 'yellow'}, {'xmldecl': False, 'svgns': False, 'nl': False},
+        'svg': [{}, {'scale': 3, 'border': 1}, {'dark': 'darkblue', 'light': 'yellow'}, {'encoding': 'iso-8859-1', 'title': 'M\u00e4rchen \u00e1\u00e0', 'desc': '\u00fc'},
+                {'xmldecl': False, 'svgns': False, 'nl': False}, {'encoding': 'cp1252', 'title': '\u20ac 5', 'svgid': 'id\u00e9'},
                 {'omitsize': True}, {'unit': 'mm', 'scale': 2}, {'title': 'T<&>', 'desc': 'D"'}, {'svgclass': 'c1', 'lineclass': 'c2', 'svgid': 'i1'},
                 {'draw_transparent': True, 'light': None, 'dark': '#123'}, {'svgversion': 1.1}, {'finder_dark': 'red', 'data_dark': 'green'}],
         'png': [{}, {'scale': 4, 'compresslevel': 0}, {'border': 0, 'dark': 'blue', 'compresslevel': 3}, {'light': None, 'dpi': 150}, {'dpi': 300, 'scale': 2},
@@ -113,9 +115,9 @@ def run(ctx):
                         inline = q.svg_inline(**{k: v for k, v in kw.items() if k not in ('xmldecl', 'svgns', 'nl')})
                         want_inline = api_stream(q, 'svg', dict({k: v for k, v in kw.items() if k not in ('xmldecl', 'svgns', 'nl')}, xmldecl=False, svgns=False, nl=False))
                         n += 1
-                        if inline.encode('utf-8') != want_inline:
+                        if inline.encode(kw.get('encoding') or 'utf-8') != want_inline:      # svg_inline decodes with the document encoding
                             failures.append({'input': {'symbol': sym, 'kind': kind, 'kw': repr(kw), 'route': 'svg_inline'},
-                                             'observed': inline[:80], 'expected': want_inline[:80].decode()})
+                                             'observed': inline[:80], 'expected': want_inline[:80].decode(kw.get('encoding') or 'utf-8', 'replace')})
                     if kind == 'png':
                         uri = q.png_data_uri(**kw)
                         routes['png data uri'] = base64.b64decode(uri.split(',', 1)[1])
